@@ -9,7 +9,8 @@ use std::sync::mpsc::{channel, Receiver, Sender};
 use std::sync::{Arc, Mutex};
 
 pub enum Msg {
-    V(VMsg),
+    /// (process id, violation)
+    V(usize, VMsg),
     /// (process id = slot * 1000 + generation, result)
     R(usize, RMsg),
     /// world tags announced by a process while it worked on one item, in order
@@ -187,6 +188,12 @@ pub fn remainder(item: &Item, tag: &str) -> Option<Item> {
 /// Runs all `items` on `n` workers; messages arrive on the returned channel; the channel closes
 /// when everything has been processed.
 pub fn run_pool(n: usize, items: Vec<Item>) -> Receiver<Msg> {
+    run_pool_opts(n, items, false)
+}
+
+/// `fresh_per_item`: every work item gets a brand-new worker process (identical process histories
+/// whatever the worker count - used by the determinism self-test).
+pub fn run_pool_opts(n: usize, items: Vec<Item>, fresh_per_item: bool) -> Receiver<Msg> {
     let (tx, rx): (Sender<Msg>, Receiver<Msg>) = channel();
     let queue = Arc::new(Mutex::new(VecDeque::from(items)));
     for slot in 0..n {
@@ -214,7 +221,7 @@ pub fn run_pool(n: usize, items: Vec<Item>) -> Receiver<Msg> {
                 let mut tags = Vec::new();
                 let res = wp.collect_d(
                     &mut |v| {
-                        let _ = txv.send(Msg::V(v));
+                        let _ = txv.send(Msg::V(procid, v));
                     },
                     |t, d| {
                         let _ = txd.send(Msg::D(t, d));
@@ -225,6 +232,19 @@ pub fn run_pool(n: usize, items: Vec<Item>) -> Receiver<Msg> {
                 match res {
                     Ok(r) => {
                         let _ = tx.send(Msg::R(procid, r));
+                        if fresh_per_item {
+                            generation += 1;
+                            let dir = wp.dir.clone();
+                            wp.shutdown();
+                            let _ = std::fs::remove_dir_all(&dir);
+                            wp = match WorkerProc::spawn(slot) {
+                                Ok(w) => w,
+                                Err(e) => {
+                                    let _ = tx.send(Msg::Broken(e));
+                                    return;
+                                }
+                            };
+                        }
                     }
                     Err((tag, last)) => {
                         generation += 1;
